@@ -1,11 +1,10 @@
 (** C19 -- the property-level lemmas, assembled from CacheFSProofs.v and stated for a fact record
     (instantiated at the regenerated [gen_cache_facts] in PropsC19.v). *)
-From Coq Require Import List NArith ZArith Bool Arith Lia.
+From Coq Require Import List NArith ZArith Bool Arith Lia Ascii String.
 From MxlBase Require Import ListX.
-From CacheFS Require Import CacheFS CacheFSSpec CacheFSProofs.
+From CacheFS Require Import CacheKeys CacheFS CacheFSSpec ExpectedFacts CacheKeysProofs CacheFSProofs.
 Import ListNotations.
 
-Definition expected_facts : cache_facts := mkCacheFacts SaveTempReplace true true.
 
 Section Props.
   Variable V : Type.
@@ -22,80 +21,82 @@ Section Props.
   Proof. intros items k x _. left. reflexivity. Qed.
 
   Lemma transparent :
-    forall items p,
+    forall pol items p,
       names_distinct name items ->
-      collect items (s_pcs (run_seq V name fnv size None (cf_save facts) p items fs_empty))
+      collect items (s_pcs (run_seq V name fnv size pol None (cf_save facts) p items fs_empty))
         = Some (run_uncached V fnv items)
-      /\ collect items (s_pcs (run_par V name fnv size (cf_save facts) p items fs_empty))
+      /\ collect items (s_pcs (run_par V name fnv size pol (cf_save facts) p items fs_empty))
         = Some (run_uncached V fnv items)
       /\ forall sched,
-           let st := exec V name fnv size (cf_save facts) p items sched (init items fs_empty) in
+           let st := exec V name fnv size pol (cf_save facts) p items sched (init items fs_empty) in
            all_done st = true -> collect items (s_pcs st) = Some (run_uncached V fnv items).
   Proof.
-    intros items p Hnd. split; [|split].
-    - apply (run_seq_correct V name fnv size _ Hpr items fs_empty p Hnd (good_empty items)).
-    - apply (run_par_correct V name fnv size _ Hpr items fs_empty p Hnd (good_empty items)).
+    intros pol items p Hnd. split; [|split].
+    - apply (run_seq_correct V name fnv size pol _ Hpr items fs_empty p Hnd (good_empty items)).
+    - apply (run_par_correct V name fnv size pol _ Hpr items fs_empty p Hnd (good_empty items)).
     - intros sched st Hd.
-      apply (complete_run_correct V name fnv size _ Hpr items fs_empty p sched Hnd (good_empty items) Hd).
+      apply (complete_run_correct V name fnv size pol _ Hpr items fs_empty p sched Hnd (good_empty items) Hd).
   Qed.
 
   Lemma second_run_hits_disk :
-    forall items p1 p2 sched1,
+    forall pol1 pol2 items p1 p2 sched1,
       names_distinct name items ->
-      let st1 := exec V name fnv size (cf_save facts) p1 items sched1 (init items fs_empty) in
+      let st1 := exec V name fnv size pol1 (cf_save facts) p1 items sched1 (init items fs_empty) in
       all_done st1 = true ->
       forall sched2,
-        let st2 := exec V name fnv size (cf_save facts) p2 items sched2 (init items (s_fs st1)) in
+        let st2 := exec V name fnv size pol2 (cf_save facts) p2 items sched2 (init items (s_fs st1)) in
         s_calls st2 = 0%N /\ s_effs st2 = 0%N /\ (forall q, s_fs st2 q = s_fs st1 q)
         /\ (all_done st2 = true -> collect items (s_pcs st2) = Some (run_uncached V fnv items)).
   Proof.
-    intros items p1 p2 sched1 Hnd st1 Hd sched2.
+    intros pol1 pol2 items p1 p2 sched1 Hnd st1 Hd sched2.
     apply cached_run_no_recompute.
-    apply (complete_run_correct V name fnv size _ Hpr items fs_empty p1 sched1 Hnd (good_empty items) Hd).
+    apply (complete_run_correct V name fnv size pol1 _ Hpr items fs_empty p1 sched1 Hnd (good_empty items) Hd).
   Qed.
 
   Lemma crash_then_rerun :
-    forall items f0 p1 sched1,
+    forall pol1 pol2 items f0 p1 sched1,
       names_distinct name items -> Good V name fnv size items f0 ->
-      let f1 := s_fs (exec V name fnv size (cf_save facts) p1 items sched1 (init items f0)) in
+      let f1 := s_fs (exec V name fnv size pol1 (cf_save facts) p1 items sched1 (init items f0)) in
       Good V name fnv size items f1
       /\ forall p2,
            (forall sched2,
-              let st2 := exec V name fnv size (cf_save facts) p2 items sched2 (init items f1) in
+              let st2 := exec V name fnv size pol2 (cf_save facts) p2 items sched2 (init items f1) in
               all_done st2 = true ->
               collect items (s_pcs st2) = Some (run_uncached V fnv items)
               /\ AllCached V name fnv size items (s_fs st2))
-           /\ (let st2 := run_seq V name fnv size None (cf_save facts) p2 items f1 in
+           /\ (let st2 := run_seq V name fnv size pol2 None (cf_save facts) p2 items f1 in
                all_done st2 = true /\ collect items (s_pcs st2) = Some (run_uncached V fnv items)
                /\ AllCached V name fnv size items (s_fs st2))
-           /\ (let st2 := run_par V name fnv size (cf_save facts) p2 items f1 in
+           /\ (let st2 := run_par V name fnv size pol2 (cf_save facts) p2 items f1 in
                all_done st2 = true /\ collect items (s_pcs st2) = Some (run_uncached V fnv items)
                /\ AllCached V name fnv size items (s_fs st2)).
   Proof.
-    intros items f0 p1 sched1 Hnd Hg f1.
+    intros pol1 pol2 items f0 p1 sched1 Hnd Hg f1.
     assert (Hg1 : Good V name fnv size items f1)
-      by (apply (crash_state_good V name fnv size _ Hpr items f0 p1 sched1 Hnd Hg)).
+      by (apply (crash_state_good V name fnv size pol1 _ Hpr items f0 p1 sched1 Hnd Hg)).
     split; [exact Hg1|]. intros p2. split; [|split].
     - intros sched2 st2 Hd.
-      apply (complete_run_correct V name fnv size _ Hpr items f1 p2 sched2 Hnd Hg1 Hd).
-    - apply (run_seq_correct V name fnv size _ Hpr items f1 p2 Hnd Hg1).
-    - apply (run_par_correct V name fnv size _ Hpr items f1 p2 Hnd Hg1).
+      apply (complete_run_correct V name fnv size pol2 _ Hpr items f1 p2 sched2 Hnd Hg1 Hd).
+    - apply (run_seq_correct V name fnv size pol2 _ Hpr items f1 p2 Hnd Hg1).
+    - apply (run_par_correct V name fnv size pol2 _ Hpr items f1 p2 Hnd Hg1).
   Qed.
 
-  (** any number of interrupted runs, each killed anywhere, leave a directory from which the
-      theorem above applies again *)
-  Definition after_crashes (items : list (N * N)) (f0 : fs V) (runs : list (N * list nat)) : fs V :=
-    fold_left (fun f r => s_fs (exec V name fnv size (cf_save facts) (fst r) items (snd r) (init items f))) runs f0.
+  (** any number of interrupted runs, each killed anywhere and each with its own flush policy, leave a
+      directory from which the theorem above applies again *)
+  Definition after_crashes (items : list (N * N)) (f0 : fs V)
+             (runs : list (N * (V -> nat -> bool) * list nat)) : fs V :=
+    fold_left (fun f r => s_fs (exec V name fnv size (snd (fst r)) (cf_save facts) (fst (fst r)) items (snd r) (init items f)))
+              runs f0.
 
   Lemma any_number_of_crashes :
     forall items runs f0,
       names_distinct name items -> Good V name fnv size items f0 ->
       Good V name fnv size items (after_crashes items f0 runs).
   Proof.
-    intros items runs. induction runs as [|[p sched] rest IH]; intros f0 Hnd Hg.
+    intros items runs. induction runs as [|[[p pol] sched] rest IH]; intros f0 Hnd Hg.
     - exact Hg.
     - unfold after_crashes. cbn [fold_left fst snd]. apply IH; [exact Hnd|].
-      apply (crash_state_good V name fnv size _ Hpr items f0 p sched Hnd Hg).
+      apply (crash_state_good V name fnv size pol _ Hpr items f0 p sched Hnd Hg).
   Qed.
 End Props.
 
@@ -105,7 +106,7 @@ Lemma name_collision_refuted :
   forall pr,
   exists (name : N -> N) (items : list (N * N)),
     NoDup (map fst items)
-    /\ collect items (s_pcs (run_seq Z name Z.of_N (fun _ => 1) None pr 1 items fs_empty))
+    /\ collect items (s_pcs (run_seq Z name Z.of_N (fun _ => 1) pol_through None pr 1 items fs_empty))
        <> Some (run_uncached Z Z.of_N items).
 Proof.
   intros pr. exists (fun _ => 0%N), [(1%N, 2%N); (2%N, 3%N)]. split.
@@ -117,18 +118,215 @@ Qed.
 Lemma torn_refuted :
   exists (items : list (N * N)) (sched1 : list nat),
     names_distinct (fun k => k) items
-    /\ let f1 := s_fs (exec Z (fun k => k) Z.of_N (fun _ => 5) SaveDirect 1 items sched1 (init items fs_empty)) in
-       forall p2 sched2,
-         let st2 := exec Z (fun k => k) Z.of_N (fun _ => 5) SaveDirect p2 items sched2 (init items f1) in
+    /\ forall pol1,
+       let f1 := s_fs (exec Z (fun k => k) Z.of_N (fun _ => 5) pol1 SaveDirect 1 items sched1 (init items fs_empty)) in
+       forall pol2 p2 sched2,
+         let st2 := exec Z (fun k => k) Z.of_N (fun _ => 5) pol2 SaveDirect p2 items sched2 (init items f1) in
          all_done st2 = true -> collect items (s_pcs st2) = None.
 Proof.
   exists [(1%N, 2%N)], [0; 0; 0]. split.
   - repeat constructor; cbn; intuition.
-  - intros f1 p2 sched2 st2.
+  - intros pol1 f1 pol2 p2 sched2 st2.
     assert (Hnd : names_distinct (fun k : N => k) [(1%N, 2%N)]) by (repeat constructor; cbn; intuition).
-    assert (Hf : f1 (Final 1%N) = Some (2%Z, 0)) by (vm_compute; reflexivity).
-    destruct (direct_torn_poisons Z (fun k => k) Z.of_N (fun _ => 5) SaveDirect eq_refl
+    assert (Hf : f1 (Final 1%N) = Some (2%Z, 0)) by reflexivity.
+    destruct (torn_poisons Z (fun k => k) Z.of_N (fun _ => 5) pol2 SaveDirect
                 [(1%N, 2%N)] f1 p2 sched2 0 1%N 2%N 2%Z 0 Hnd eq_refl Hf) as [_ [_ H]].
     + discriminate.
     + exact H.
+Qed.
+
+(** REGRESSION (seeded/C19-1): os.replace executed before the handle is closed.  With a handle that
+    keeps the bytes in user space until close() (pol_buffered) the run is killed right after the
+    replace: the final file exists with 0 bytes, the directory is not Good, and no rerun -- whatever
+    its protocol, flush policy or interleaving -- returns.  With an unbuffered handle (pol_through)
+    the very same kill point leaves a complete file: the defect is invisible to a write-through model. *)
+Lemma replace_before_close_refuted :
+  exists (items : list (N * N)) (sched1 : list nat),
+    names_distinct (fun k => k) items
+    /\ let f1 := s_fs (exec Z (fun k => k) Z.of_N (fun _ => 5) pol_buffered SaveReplaceOpen 1 items sched1 (init items fs_empty)) in
+       ~ Good Z (fun k => k) Z.of_N (fun _ => 5) items f1
+       /\ (forall pr2 pol2 p2 sched2,
+             let st2 := exec Z (fun k => k) Z.of_N (fun _ => 5) pol2 pr2 p2 items sched2 (init items f1) in
+             all_done st2 = true -> collect items (s_pcs st2) = None)
+       /\ Good Z (fun k => k) Z.of_N (fun _ => 5) items
+            (s_fs (exec Z (fun k => k) Z.of_N (fun _ => 5) pol_through SaveReplaceOpen 1 items sched1 (init items fs_empty))).
+Proof.
+  exists [(1%N, 2%N)], [0; 0; 0; 0; 0; 0; 0; 0; 0]. split; [|split; [|split]].
+  - repeat constructor; cbn; intuition.
+  - intros Hg. destruct (Hg 1%N 2%N (or_introl eq_refl)) as [H|H]; vm_compute in H; discriminate.
+  - intros pr2 pol2 p2 sched2 st2.
+    assert (Hnd : names_distinct (fun k : N => k) [(1%N, 2%N)]) by (repeat constructor; cbn; intuition).
+    set (f1 := s_fs (exec Z (fun k => k) Z.of_N (fun _ => 5) pol_buffered SaveReplaceOpen 1 [(1%N, 2%N)]
+                          [0; 0; 0; 0; 0; 0; 0; 0; 0] (init [(1%N, 2%N)] fs_empty))) in *.
+    assert (Hf : f1 (Final 1%N) = Some (2%Z, 0)) by (vm_compute; reflexivity).
+    destruct (torn_poisons Z (fun k => k) Z.of_N (fun _ => 5) pol2 pr2
+                [(1%N, 2%N)] f1 p2 sched2 0 1%N 2%N 2%Z 0 Hnd eq_refl Hf) as [_ [_ H]].
+    + discriminate.
+    + exact H.
+  - intros k x [E|[]]. inversion E; subst. right. vm_compute. reflexivity.
+Qed.
+
+(** * default file names *)
+
+(** pairwise different keys of the universe get pairwise different file names under the repaired
+    default name function *)
+Lemma names_distinct_of_keys sh salt (keyof : N -> key) (items : list (N * N)) :
+  (forall kx, In kx items -> wf_key (keyof (fst kx)) = true) ->
+  NoDup (map (fun kx => keyof (fst kx)) items) ->
+  names_distinct (name_id NameRepr sh salt keyof) items.
+Proof.
+  unfold names_distinct. induction items as [|a items IH]; cbn [map]; intros W ND.
+  - constructor.
+  - inversion ND as [|? ? Hnin ND']; subst. constructor.
+    + intros Hin. apply in_map_iff in Hin. destruct Hin as (b & Eb & Hb).
+      apply Hnin. apply in_map_iff. exists b. split; [|exact Hb].
+      apply (name_id_repr_inj sh salt keyof); try exact Eb; apply W; [right; exact Hb | left; reflexivity].
+    + apply IH; [|exact ND']. intros kx Hkx. apply W. right. exact Hkx.
+Qed.
+
+Section NameProps.
+  Variable V : Type.
+  Variable keyof : N -> key.
+  Variable fnv : N -> V.
+  Variable size : V -> nat.
+  Variable facts : cache_facts.
+  Hypothesis Hsave : cf_save facts = SaveTempReplace.
+
+  Let facts_eq : forall kind, cf_name facts = kind ->
+      facts = mkCacheFacts (cf_save facts) (cf_load_or_run facts) (cf_wiring facts) kind.
+  Proof. intros kind <-. destruct facts; reflexivity. Qed.
+
+  (** FULL transparency statement for the repaired names *)
+  Lemma transparent_repr :
+    cf_name facts = NameRepr ->
+    forall pol items p sh salt,
+      (forall kx, In kx items -> wf_key (keyof (fst kx)) = true) ->
+      NoDup (map (fun kx => keyof (fst kx)) items) ->
+      let name := name_id (cf_name facts) sh salt keyof in
+      collect items (s_pcs (run_seq V name fnv size pol None (cf_save facts) p items fs_empty))
+        = Some (run_uncached V fnv items)
+      /\ collect items (s_pcs (run_par V name fnv size pol (cf_save facts) p items fs_empty))
+        = Some (run_uncached V fnv items)
+      /\ forall sched,
+           let st := exec V name fnv size pol (cf_save facts) p items sched (init items fs_empty) in
+           all_done st = true -> collect items (s_pcs st) = Some (run_uncached V fnv items).
+  Proof.
+    intros Hn pol items p sh salt W ND name. subst name. rewrite Hn.
+    pose proof (names_distinct_of_keys sh salt keyof items W ND) as Hnd.
+    split; [|split].
+    - apply (run_seq_correct V _ fnv size pol _ Hsave items fs_empty p Hnd (good_empty V _ fnv size items)).
+    - apply (run_par_correct V _ fnv size pol _ Hsave items fs_empty p Hnd (good_empty V _ fnv size items)).
+    - intros sched st Hd.
+      apply (complete_run_correct V _ fnv size pol _ Hsave items fs_empty p sched Hnd
+               (good_empty V _ fnv size items) Hd).
+  Qed.
+
+  (** a rerun in a NEW INTERPRETER (other process id, other string-hash salt, other flush policy)
+      finds every result of a complete first run: names do not depend on the process *)
+  Lemma new_interpreter_rerun_hits_disk_gen :
+    cf_name facts = NameStr \/ cf_name facts = NameRepr ->
+    forall pol1 pol2 items p1 p2 sh1 sh2 salt1 salt2 sched1,
+      let name1 := name_id (cf_name facts) sh1 salt1 keyof in
+      let name2 := name_id (cf_name facts) sh2 salt2 keyof in
+      names_distinct name1 items ->
+      let st1 := exec V name1 fnv size pol1 (cf_save facts) p1 items sched1 (init items fs_empty) in
+      all_done st1 = true ->
+      forall sched2,
+        let st2 := exec V name2 fnv size pol2 (cf_save facts) p2 items sched2 (init items (s_fs st1)) in
+        s_calls st2 = 0%N /\ s_effs st2 = 0%N /\ (forall q, s_fs st2 q = s_fs st1 q)
+        /\ (all_done st2 = true -> collect items (s_pcs st2) = Some (run_uncached V fnv items)).
+  Proof.
+    intros Hk pol1 pol2 items p1 p2 sh1 sh2 salt1 salt2 sched1 name1 name2 Hnd st1 Hd sched2.
+    assert (E : name2 = name1).
+    { subst name1 name2. destruct Hk as [Hk|Hk]; rewrite Hk; reflexivity. }
+    rewrite E. apply cached_run_no_recompute.
+    apply (complete_run_correct V name1 fnv size pol1 _ Hsave items fs_empty p1 sched1 Hnd
+             (good_empty V name1 fnv size items) Hd).
+  Qed.
+End NameProps.
+
+(** whichever of the two name functions ExpectedFacts.v expects, it ignores the process *)
+Lemma expected_name_ok : C19_expected_name = NameStr \/ C19_expected_name = NameRepr.
+Proof. unfold C19_expected_name. auto. Qed.
+
+Lemma names_process_independent facts :
+  facts = expected_facts ->
+  forall sh1 sh2 salt1 salt2 k,
+    name_of (cf_name facts) sh1 salt1 k = name_of (cf_name facts) sh2 salt2 k.
+Proof. intros ->. apply name_salt_independent. exact expected_name_ok. Qed.
+
+Lemma new_interpreter_rerun_hits_disk V keyof fnv size facts :
+  facts = expected_facts ->
+  forall pol1 pol2 items p1 p2 sh1 sh2 salt1 salt2 sched1,
+    let name1 := name_id (cf_name facts) sh1 salt1 keyof in
+    let name2 := name_id (cf_name facts) sh2 salt2 keyof in
+    names_distinct name1 items ->
+    let st1 := exec V name1 fnv size pol1 (cf_save facts) p1 items sched1 (init items fs_empty) in
+    all_done st1 = true ->
+    forall sched2,
+      let st2 := exec V name2 fnv size pol2 (cf_save facts) p2 items sched2 (init items (s_fs st1)) in
+      s_calls st2 = 0%N /\ s_effs st2 = 0%N /\ (forall q, s_fs st2 q = s_fs st1 q)
+      /\ (all_done st2 = true -> collect items (s_pcs st2) = Some (run_uncached V fnv items)).
+Proof.
+  intros ->. apply new_interpreter_rerun_hits_disk_gen; [reflexivity | exact expected_name_ok].
+Qed.
+
+Lemma transparent_repr_tree V keyof fnv size facts :
+  facts = expected_facts ->
+  cf_name facts = NameRepr ->
+  forall pol items p sh salt,
+    (forall kx, In kx items -> wf_key (keyof (fst kx)) = true) ->
+    NoDup (map (fun kx => keyof (fst kx)) items) ->
+    let name := name_id (cf_name facts) sh salt keyof in
+    collect items (s_pcs (run_seq V name fnv size pol None (cf_save facts) p items fs_empty))
+      = Some (run_uncached V fnv items)
+    /\ collect items (s_pcs (run_par V name fnv size pol (cf_save facts) p items fs_empty))
+      = Some (run_uncached V fnv items)
+    /\ forall sched,
+         let st := exec V name fnv size pol (cf_save facts) p items sched (init items fs_empty) in
+         all_done st = true -> collect items (s_pcs st) = Some (run_uncached V fnv items).
+Proof. intros ->. apply transparent_repr. reflexivity. Qed.
+
+(** REGRESSION / the finding while the tree still carries f"{k}.p": the int 1 and the str "1" are
+    different keys of the universe with one file name; the second is answered with the first one's
+    result on a FRESH directory *)
+Definition collide_keyof (id : N) : key := if N.eqb id 1 then KInt 1 else KStr (chars "1"%string).
+
+Lemma str_names_collide_refuted :
+  forall pr,
+  exists (keyof : N -> key) (items : list (N * N)),
+    (forall kx, In kx items -> wf_key (keyof (fst kx)) = true)
+    /\ NoDup (map (fun kx => keyof (fst kx)) items)
+    /\ collect items (s_pcs (run_seq Z (name_id NameStr no_strhash 0 keyof) Z.of_N (fun _ => 1) pol_through
+                                     None pr 1 items fs_empty))
+       <> Some (run_uncached Z Z.of_N items)
+    /\ collect items (s_pcs (run_seq Z (name_id NameRepr no_strhash 0 keyof) Z.of_N (fun _ => 1) pol_through
+                                     None SaveTempReplace 1 items fs_empty))
+       = Some (run_uncached Z Z.of_N items).
+Proof.
+  intros pr. exists collide_keyof, [(1%N, 2%N); (2%N, 3%N)]. split; [|split; [|split]].
+  - intros kx [<-|[<-|[]]]; reflexivity.
+  - repeat constructor; cbn; intuition discriminate.
+  - destruct pr; vm_compute; discriminate.
+  - vm_compute. reflexivity.
+Qed.
+
+(** REGRESSION (seeded/C19-3): names built on hash(k).  (a) the ints -1 and -2 are different keys with
+    one hash, hence one file: wrong result on a fresh directory;  (b) [name_hash_depends_on_salt]:
+    a str key gets another name in an interpreter with another hash salt *)
+Definition neg_keyof (id : N) : key := KInt (- Z.of_N id).
+
+Lemma hash_names_refuted :
+  forall pr,
+  exists (keyof : N -> key) (items : list (N * N)),
+    (forall kx, In kx items -> wf_key (keyof (fst kx)) = true)
+    /\ NoDup (map (fun kx => keyof (fst kx)) items)
+    /\ collect items (s_pcs (run_seq Z (name_id NameHash no_strhash 0 keyof) Z.of_N (fun _ => 1) pol_through
+                                     None pr 1 items fs_empty))
+       <> Some (run_uncached Z Z.of_N items).
+Proof.
+  intros pr. exists neg_keyof, [(1%N, 2%N); (2%N, 3%N)]. split; [|split].
+  - intros kx [<-|[<-|[]]]; reflexivity.
+  - repeat constructor; cbn; intuition discriminate.
+  - destruct pr; vm_compute; discriminate.
 Qed.
